@@ -318,7 +318,70 @@ def r04_5(prog: Program, rep: Report, pe, urows):
         rep.check(ok_flow, "R04.5", qual, f.loc, f"on the temporal path the result derives from serdes.{conv.name}(val)", f"on the temporal path the result does not derive from serdes.{conv.name}(val)", detail="flow")
 
 
+TEXT_FAMILIES = {
+    "builtins.int": "numerals beyond 64 bits come back from the JSON decoder as floats",
+    "builtins.float": "the JSON/literal loader rounds or rejects what float() itself parses",
+    "decimal.Decimal": "the loader turns '1.10' into the float 1.1 before Decimal sees it",
+    "fractions.Fraction": "the loader cannot read '3/4'",
+    "pathlib.PurePosixPath": "a path such as '123' or '[1]' reads as a number / list",
+    "enum.Enum": "a str-valued member such as '1' reads as the int 1",
+    "enum.StrEnum": "a str-valued member such as '1' reads as the int 1",
+}
+VAL = ("param", "val")
+DECODE = ("call", ("ref", f"{C.SERDES}.decode"), (VAL,), ())
+LOAD = ("call", ("ref", f"{C.SERDES}.load"), (VAL,), ())
+
+
+def _ctor_sinks(term):
+    out = []
+    for s in T.walk(term):
+        if s[0] == "call" and s[1] in (C.sattr("t"), C.sattr("origin"), C.sattr("caster")) and s[2]:
+            a = s[2][0][1] if s[2][0][0] == "star" else s[2][0]
+            if T.contains(a, lambda x: x == LOAD or T.is_call_to(x, f"{C.SERDES}.strload")):
+                out.append("parsed")
+            elif T.contains(a, lambda x: x == DECODE):
+                out.append("text")
+            elif T.contains(a, lambda x: x == VAL):
+                out.append("raw")
+    return out
+
+
+def r04_6(prog: Program, rep: Report, pe, urows):
+    """The canonical text of a scalar reaches its constructor / by-value lookup as text, before (or instead of) the
+    lossy JSON/literal loader."""
+    done = set()
+    for cls, why in TEXT_FAMILIES.items():
+        k, r = C.route(prog, pe, urows, C.TypeArg(cls))
+        if k != "row" or r.routine is None or r.routine.qualname in done:
+            continue
+        done.add(r.routine.qualname)
+        f = C.call_of(prog, r.routine)
+        ps = P.paths_of(prog, f)
+        text_sink = False
+        bad = False
+        for p in ps:
+            tried_text = False
+            for e in p.events:
+                if e[0] == "attempt" and "text" in _ctor_sinks(e[1]):
+                    tried_text = True
+            nontext = any((not pol) and T.is_call_to(g, "builtins.isinstance") and g[2] == (DECODE, ("ref", "builtins.str")) for g, pol in p.guards())
+            if p.exit[0] == "return":
+                sinks = _ctor_sinks(p.exit[1])
+                if "text" in sinks:
+                    text_sink = True
+                if "parsed" in sinks and not (tried_text or nontext):
+                    bad = True
+        rep.check(
+            text_sink and not bad, "R04.6", f"{r.pred_name}->{r.routine.name}", f.loc,
+            f"the wire text reaches {r.routine.name}'s constructor as text (the JSON/literal loader only runs after that attempt)",
+            f"the wire text is run through serdes.load() before the target constructor ever sees it: {why}",
+            detail="text-first",
+        )  # fmt: skip
+
+
 def run(prog: Program, rep: Report, tier: str):
+    rep.rule("R04.6", "canonical text reaches the target constructor before the lossy loader", floor=3)
+    rep.rule("R04.7", "temporal reconstructions keep every field incl. offset and fold (shared with R01.3)", floor=3)
     rep.rule("R04.1", "epoch/UTC call-site discipline (fromtimestamp, now, date lift)", floor=8)
     rep.rule("R04.2", "duration writer against the ISO-8601 designator table, order, fraction, coverage, language", floor=12)
     rep.rule("R04.3", "number -> timedelta only as seconds=", floor=2)
@@ -330,3 +393,12 @@ def run(prog: Program, rep: Report, tier: str):
     duration_writer(prog, rep)
     r04_3_4(prog, rep, pe, urows)
     r04_5(prog, rep, pe, urows)
+    r04_6(prog, rep, pe, urows)
+    # exact-class reconstruction keeps every field, offset and fold included (shared with R01.3)
+    from ..report import Report as _R, absorb
+    from . import c01
+
+    sub = _R("C04", rep.tier)
+    sub.rule("R01.3", "", 0)
+    c01.r01_3(prog, sub, urows, pe)
+    absorb(rep, sub, {"R01.3": "R04.7"})
